@@ -26,7 +26,7 @@ Legal11(w) == Strict(w).ok
 Req == /\ l <= Len(Trace) /\ Ev.ev = "req" /\ l' = l + 1
        /\ count' = count + 1
        /\ Ev.n = count + 1
-       /\ Ev.msgid = 100 + Ev.n                         \* unique, increasing from the first request
+       /\ Ev.msgid = 100 + Ev.n + Ev.skipped            \* unique, increasing from the first request (skipped: ids used up by requests whose write failed)
        /\ Ev.streamerrors = 0                           \* separators between consecutive messages
        /\ IF version = "1.1" THEN Legal11(Ev.wire) ELSE Legal10(Ev.wire)
        /\ Ev.inputeq /\ Ev.framedeq                     \* strict decode of the wire = Input; wire = FramedInput
